@@ -509,8 +509,88 @@ class Runner:
             raise HarnessError(f"unknown driver {driver}")
 
 
+def isolated(fn, *args):
+    """Run ``fn(*args)`` in a forked child and return its (pickled) result.
+
+    Every execution of a scenario starts from the same pristine process image (library imported,
+    nothing defined, nothing cached), whatever earlier executions did to process-global state: the
+    caches the harness knows how to clear, and any it does not know about (e.g. a module-level
+    container introduced by a change to the library).  This is what makes 'one seed = one exactly
+    repeatable execution' hold across workers, replays and minimisation."""
+    import pickle
+    import traceback
+
+    if os.environ.get("VERIF_NO_FORK"):
+        return fn(*args)
+    lib()
+    r, w = os.pipe()
+    pid = os.fork()
+    if pid == 0:
+        code = 0
+        try:
+            os.close(r)
+            try:
+                # (faulthandler's watchdog is not fork-safe: re-arming it in a child whose parent had
+                # one armed deadlocks; SIGALRM's default action ends a hung child instead)
+                import signal
+
+                signal.signal(signal.SIGALRM, signal.SIG_DFL)
+                signal.alarm(100)
+                out = ("ok", fn(*args))
+            except BaseException as e:  # noqa: B036 - reported to the parent
+                out = ("err", type(e).__name__, f"{type(e).__name__}: {e}", traceback.format_exc()[-1500:])
+            try:
+                data = pickle.dumps(out)
+            except Exception as e:
+                data = pickle.dumps(("err", "PickleError", str(e), ""))
+            with os.fdopen(w, "wb") as f:
+                f.write(data)
+        except BaseException:
+            code = 3
+        finally:
+            os._exit(code)
+    os.close(w)
+    import select
+    import time as _time
+
+    chunks = []
+    t0 = _time.time()
+    with os.fdopen(r, "rb", buffering=0) as f:
+        while True:
+            left = 130.0 - (_time.time() - t0)
+            if left <= 0:
+                try:
+                    os.kill(pid, 9)
+                except OSError:
+                    pass
+                break
+            rd, _, _ = select.select([f], [], [], left)
+            if not rd:
+                continue
+            b = f.read(1 << 20)
+            if not b:
+                break
+            chunks.append(b)
+    data = b"".join(chunks)
+    _pid, status = os.waitpid(pid, 0)
+    if not data:
+        raise HarnessError(f"isolated execution died (wait status {status})")
+    out = pickle.loads(data)
+    if out[0] == "ok":
+        return out[1]
+    if out[1] == "SimDeadlock":
+        raise SimDeadlock(out[2])
+    if out[1] == "SimStepCap":
+        raise SimStepCap(out[2])
+    raise HarnessError(out[2] + "\n" + out[3])
+
+
 def execute(scenario, runner_cls=Runner):
-    """Run one scenario; returns {"trace","outs","warnings","stats","digest"}."""
+    """Run one scenario in a pristine forked process; returns {"trace","outs","warnings","stats","digest"}."""
+    return isolated(_execute, scenario, runner_cls)
+
+
+def _execute(scenario, runner_cls=Runner):
     r = runner_cls(scenario)
     caught = []
     with warnings.catch_warnings(record=True) as wl:
